@@ -85,6 +85,8 @@ def families(dialect):
         ("limit-7", lambda p, r, T: p.call(r, "limit", 7)),
         ("offset-2", lambda p, r, T: p.call(r, "offset", 2)),
         ("slice", lambda p, r, T: p.item(r, slice(1, 4))),
+        ("slice-all", lambda p, r, T: p.item(r, slice(None, None))),
+        ("slice-from", lambda p, r, T: p.item(r, slice(2, None))),
         ("distinct", lambda p, r, T: p.call(r, "distinct")),
         ("for-update-of-t1", lambda p, r, T: p.call(r, "for_update", of=("t1",))),
         ("for-update-of-t2", lambda p, r, T: p.call(r, "for_update", of=("t2",))),
